@@ -59,6 +59,7 @@ func (a *asset) Equal(b channel.Asset) bool {
 
 type callRec struct {
 	step       int
+	idx        int // participant index named in the forwarded request
 	ledger     int
 	method     string
 	start, end int64
@@ -68,6 +69,8 @@ type callRec struct {
 
 type topRec struct {
 	step       int
+	idx        int  // participant index named in the request
+	twinned    bool // a second request for the same channel and registered state (other participant index) runs concurrently
 	method     string
 	assets     []int
 	distinct   []int
@@ -170,9 +173,9 @@ type scripted struct {
 
 var errScripted = errors.New("scripted sub-call failure")
 
-func (x *scripted) call(ctx context.Context, method string, step int) error {
+func (x *scripted) call(ctx context.Context, method string, step int, idx channel.Index) error {
 	h := x.h
-	c := &callRec{step: step, ledger: x.l, method: method}
+	c := &callRec{step: step, idx: int(idx), ledger: x.l, method: method}
 	h.mu.Lock()
 	h.seq++
 	c.start = h.seq
@@ -224,15 +227,15 @@ func (x *scripted) call(ctx context.Context, method string, step int) error {
 }
 
 func (x *scripted) Register(ctx context.Context, req channel.AdjudicatorReq, _ []channel.SignedState) error {
-	return x.call(ctx, "register", int(req.Tx.Version))
+	return x.call(ctx, "register", int(req.Tx.Version), req.Idx)
 }
 
 func (x *scripted) Withdraw(ctx context.Context, req channel.AdjudicatorReq, _ channel.StateMap) error {
-	return x.call(ctx, "withdraw", int(req.Tx.Version))
+	return x.call(ctx, "withdraw", int(req.Tx.Version), req.Idx)
 }
 
 func (x *scripted) Progress(ctx context.Context, req channel.ProgressReq) error {
-	return x.call(ctx, "progress", int(req.Tx.Version))
+	return x.call(ctx, "progress", int(req.Tx.Version), req.Idx)
 }
 
 func (x *scripted) Subscribe(context.Context, channel.ID) (channel.AdjudicatorSubscription, error) {
@@ -240,7 +243,7 @@ func (x *scripted) Subscribe(context.Context, channel.ID) (channel.AdjudicatorSu
 }
 
 func (x *scripted) Fund(ctx context.Context, req channel.FundingReq) error {
-	return x.call(ctx, "fund", int(req.State.Version))
+	return x.call(ctx, "fund", int(req.State.Version), req.Idx)
 }
 
 // ---- execution ------------------------------------------------------------------------
@@ -349,46 +352,65 @@ func (h *harness) run() {
 			subStates = channel.StateMap{channel.ID{9}: &channel.State{Version: 1}}
 		}
 		params := &channel.Params{ChallengeDuration: uint64(dur)}
-		call := func() {
-			ctx, cancel := context.WithTimeout(context.Background(), 10*time.Second)
-			defer cancel()
-			if c := st.Int("cancel_us"); c > 0 {
-				// fault: the caller cancels its own context while sub-calls are pending
-				d := s.Delay(fmt.Sprintf("cancel:%d", id), 0, time.Duration(c)*time.Microsecond)
-				go func() {
-					time.Sleep(d)
-					cancel()
-				}()
-				s.Count("fault.caller-cancels", 1)
+		top.idx = int(reqIdx)
+		twin := st.Int("twin") == 1 && top.method != "fund"
+		var call func()
+		mk := func(top *topRec, reqIdx channel.Index) func() {
+			return func() {
+				ctx, cancel := context.WithTimeout(context.Background(), 10*time.Second)
+				defer cancel()
+				if c := st.Int("cancel_us"); c > 0 {
+					// fault: the caller cancels its own context while sub-calls are pending
+					d := s.Delay(fmt.Sprintf("cancel:%d", id), 0, time.Duration(c)*time.Microsecond)
+					go func() {
+						time.Sleep(d)
+						cancel()
+					}()
+					s.Count("fault.caller-cancels", 1)
+				}
+				h.mu.Lock()
+				h.seq++
+				top.start = h.seq
+				h.tops = append(h.tops, top)
+				h.mu.Unlock()
+				h.event("drv", top.method+".inv", id, "#%d assets on ledgers %v ego=%d", top.start, top.assets, top.ego)
+				var err error
+				req := channel.AdjudicatorReq{Params: params, Tx: channel.Transaction{State: state}, Idx: reqIdx, Secondary: reqSec}
+				switch top.method {
+				case "register":
+					err = adj.Register(ctx, req, nil)
+				case "progress":
+					err = adj.Progress(ctx, channel.ProgressReq{AdjudicatorReq: req, NewState: state})
+				case "withdraw":
+					err = adj.Withdraw(ctx, req, subStates)
+				case "fund":
+					err = newFunder(top.ego).Fund(ctx, channel.FundingReq{Params: params, State: state})
+				}
+				h.mu.Lock()
+				h.seq++
+				top.end = h.seq
+				top.failed = err != nil
+				if err != nil {
+					top.err = err.Error()
+				}
+				top.done = true
+				h.mu.Unlock()
+				h.event("drv", top.method+".ret", id, "#%d err=%v", top.end, err)
 			}
-			h.mu.Lock()
-			h.seq++
-			top.start = h.seq
-			h.tops = append(h.tops, top)
-			h.mu.Unlock()
-			h.event("drv", top.method+".inv", id, "#%d assets on ledgers %v ego=%d", top.start, top.assets, top.ego)
-			var err error
-			req := channel.AdjudicatorReq{Params: params, Tx: channel.Transaction{State: state}, Idx: reqIdx, Secondary: reqSec}
-			switch top.method {
-			case "register":
-				err = adj.Register(ctx, req, nil)
-			case "progress":
-				err = adj.Progress(ctx, channel.ProgressReq{AdjudicatorReq: req, NewState: state})
-			case "withdraw":
-				err = adj.Withdraw(ctx, req, subStates)
-			case "fund":
-				err = newFunder(top.ego).Fund(ctx, channel.FundingReq{Params: params, State: state})
-			}
-			h.mu.Lock()
-			h.seq++
-			top.end = h.seq
-			top.failed = err != nil
-			if err != nil {
-				top.err = err.Error()
-			}
-			top.done = true
-			h.mu.Unlock()
-			h.event("drv", top.method+".ret", id, "#%d err=%v", top.end, err)
+		}
+		call = mk(top, reqIdx)
+		if twin {
+			// the other participant issues the same kind of request for the same
+			// channel and registered state at (almost) the same time: both
+			// requests are forwarded, each exactly once per ledger
+			top.twinned = true
+			t2 := *top
+			t2.idx = 1 - top.idx
+			twinCall := mk(&t2, channel.Index(t2.idx))
+			d := s.Delay(fmt.Sprintf("twin:%d", id), 0, h.latMax)
+			wg.Add(1)
+			go func() { defer wg.Done(); time.Sleep(d); twinCall() }()
+			s.Count("fault.concurrent-twin-request", 1)
 		}
 		if g := st.Int("gap_us"); g > 0 {
 			time.Sleep(s.Delay(fmt.Sprintf("gap:%d", id), 0, time.Duration(g)*time.Microsecond))
@@ -447,7 +469,7 @@ func (h *harness) checkCall(res *kernel.Result, top *topRec) {
 	}
 	byLedger := make([][]*callRec, len(universe))
 	for _, c := range h.calls {
-		if c.step != top.step {
+		if c.step != top.step || (top.twinned && c.idx != top.idx) {
 			continue
 		}
 		if !c.done {
